@@ -45,7 +45,7 @@ if ok:
     os.makedirs(dst, exist_ok=True)
     shutil.copy(patch, os.path.join(dst, "patch.diff"))
     shutil.copy(os.path.join(src, "demo_test.go"), os.path.join(dst, "demo_test.go"))
-    meta = {"id": name, "breaks_property": prop, "needs_to_manifest": open(os.path.join(src, "meta.txt")).read(),
+    meta = {"id": name, "breaks_property": prop, "needs_to_manifest": open(os.path.join(src, "meta.txt")).read() if os.path.exists(os.path.join(src, "meta.txt")) else json.load(open(os.path.join(src, "meta.json"))).get("needs_to_manifest", ""),
             "confirmed_by": {"worktree": "scratch worktree of /repo HEAD " + subprocess.run("git -C /repo rev-parse --short HEAD", shell=True, capture_output=True, text=True).stdout.strip(),
                              "ran": ["git apply patch.diff", "go build ./...", "go test -vet=off -count=1 -timeout 25m ./...  (suite passes)",
                                      "go test -run TestSeedDemo (fails with patch)", "git apply -R; go test -run TestSeedDemo (passes)"], "results": {k: v for k, v in res.items() if not k.endswith("tail")}},
